@@ -22,6 +22,14 @@ CHECKS = {
    text="Every call of every transaction in seeded programs (valid, boundary and invalid arguments on maps, lists, text with conflicts/counters/nesting) must transform the logged view exactly as the sequential specification says, leave all other objects unchanged, fail exactly for invalid arguments without changing anything, and the committed view must equal the last in-transaction view. The op-generation rules of Doc.tla are checked by TLC to realise the documented effect on every reachable state (LocalEffect) and the behaviours are replayed.", ref="§6 C03"),
  "C07": dict(cat="model_checking", tech="Exhaustive state-coverage replay of Doc.tla with Interp at every antichain of heads + TLA+ trace validation (Trace_Interp ReadAt) of random histories",
    text="For every reachable state of the bounded Doc.tla model TLC enumerates all antichains H of the acting replica's changes and the view Interp(ops of ancestors(H)); the harness issues the reads at H and fork_at(H) on the real document and compares. Random conflict-rich histories are validated the other way round (logged reads at single and concurrent heads must equal the interpretation of the ancestors' decoded ops; fork_at heads/changes/view).", ref="§6 C07"),
+ "C11": dict(cat="model_checking", tech="TLA+ trace validation (TLC): Trace_Graph (applied/queue/heads/bytes after load, resave digest), Trace_Same (identical document), Trace_Interp (historical reads after reload), Trace_Storage (save layout)",
+   text="Programs with frequent save/load cycles (deflate and retain_orphans on/off, queued orphans, empty changes): the loaded replica must report the same applied set, queue (iff retained), heads, change bytes, document and historical states as the specification state, and saving again must give identical bytes.", ref="§6 C11"),
+ "C12": dict(cat="model_checking", tech="TLA+ trace validation (TLC, Trace_Storage over StorageOps/Graph operators) of real save + save_after files: whole-file loads, out-of-order piecewise feeding with repeats; TLC model checking of Storage.tla (Compose)",
+   text="The chunk layout of every piece written by the real writer is logged; the trace spec derives from it what loading the concatenation and feeding any piece to a reader (delivery rules of Graph.tla) must produce, and requires idempotent re-feeding.", ref="§6 C12"),
+ "C13": dict(cat="fault_enumeration", tech="Exhaustive enumeration of every byte cut of real files, each outcome validated by TLC against Storage!LoadResult (Trace_Storage) + TLC model checking of Storage.tla CrashPrefix",
+   text="For every byte offset of files made of a save and 2-5 incremental saves, strict and partial load outcomes (error / applied set / queue / heads / view digest) must equal the specification's prediction from the chunk boundaries: last whole chunk for partial loads, boundaries only for strict loads, never a panic.", ref="§6 C13"),
+ "C14": dict(cat="fault_enumeration", tech="Enumeration of single-bit flips of real files; the TLA+ trace spec (Trace_Storage Flips) requires every flip to be rejected",
+   text="Every flipped bit (all bits in thorough tier, header bits + seeded sample in quick) of document+incremental files must make strict load fail; accepted-same, accepted-different and panic outcomes are violations.", ref="§6 C14", note="assumes: rejection rests on the 32-bit chunk checksum, the check observes that no enumerated flip collides; bundle bytes are covered by the C18 check once built"),
 }
 
 NA_REASON = "check not built yet in this session (framework under construction; see DESIGN.md §10 build order)"
